@@ -536,3 +536,128 @@ Proof.
   - pose proof (order_ancestor_lt (x :: pads) o o (eq_refl _) Ho) as L.
     assert (order o ((x :: pads) ++ o) < 0) by (apply L; discriminate). lia.
 Qed.
+
+(* ------------------------------------------------------------------ *)
+(* predecessor always returns for a name of the zone (the padding arithmetic stays within the
+   63 / 255 limits)                                                      *)
+
+Lemma wire_length_rev (l : name) : wire_length (rev l) = wire_length l.
+Proof.
+  induction l as [|x l IH]; [reflexivity|]. cbn [rev]. rewrite wire_length_app, IH, !wire_length_cons.
+  change (wire_length []) with 0. lia.
+Qed.
+
+Lemma zlen_repeat {A} (x : A) k : zlen (repeat x k) = Z.of_nat k.
+Proof. unfold zlen. rewrite repeat_length. reflexivity. Qed.
+
+Lemma wire_length_repeat63 k : wire_length (repeat (repeat 255 63) k) = 64 * Z.of_nat k.
+Proof.
+  induction k as [|k IH]; [reflexivity|].
+  change (repeat (repeat 255 63) (S k)) with (repeat 255 63 :: repeat (repeat 255 63) k).
+  rewrite wire_length_cons, IH. rewrite zlen_repeat. lia.
+Qed.
+
+Lemma pad_labels_spec : forall fuel needed acc,
+  needed <= 64 * Z.of_nat fuel + 64 ->
+  exists k, pad_labels fuel needed acc = (acc ++ repeat (repeat 255 63) k, needed - 64 * Z.of_nat k) /\
+            needed - 64 * Z.of_nat k <= 64 /\ (0 <= needed -> 0 <= needed - 64 * Z.of_nat k).
+Proof.
+  induction fuel as [|f IH]; intros needed acc H.
+  - exists 0%nat. cbn [pad_labels repeat]. rewrite app_nil_r. split; [f_equal; lia|]. split; lia.
+  - cbn [pad_labels]. destruct (needed >? 64) eqn:E.
+    + destruct (IH (needed - 64) (acc ++ [repeat 255 63])) as (k & -> & H1 & H2); [lia|].
+      exists (S k). split; [|split; lia].
+      rewrite <- app_assoc. cbn [app repeat]. f_equal. lia.
+    + exists 0%nat. cbn [repeat]. rewrite app_nil_r. split; [f_equal; lia|]. split; lia.
+Qed.
+
+Lemma repeat_ne {A} (x : A) k : (0 < k)%nat -> repeat x k <> [].
+Proof. destruct k; [lia|discriminate]. Qed.
+
+Lemma Valid_pads_app (pads n : name) :
+  Forall (fun l => l <> [] /\ zlen l <= 63) pads -> Valid n ->
+  wire_length pads + wire_length n <= 255 -> Valid (pads ++ n).
+Proof.
+  intros HP (V1 & V2 & V3) L. repeat split.
+  - apply Forall_app. split; [|exact V1]. eapply Forall_impl; [|exact HP]. intros l [_ H]. exact H.
+  - rewrite wire_length_app. exact L.
+  - destruct n as [|x n].
+    + rewrite app_nil_r. clear -HP. induction pads as [|p pads IH]; [constructor|].
+      inversion HP as [|? ? [Hp _] HP']; subst. destruct pads as [|q pads]; [constructor|].
+      rewrite removelast_cons2. constructor; [exact Hp|apply IH; exact HP'].
+    + rewrite removelast_app_cons. apply Forall_app. split; [|exact V3].
+      eapply Forall_impl; [|exact HP]. intros l [H _]. exact H.
+Qed.
+
+Lemma pad_to_max_name_total n : Valid n -> exists s, pad_to_max_name n = Ok s.
+Proof.
+  intros V. unfold pad_to_max_name.
+  assert (0 <= 255 - wire_length n) as N0 by (destruct V as (_ & L & _); lia).
+  pose proof (wire_length_nonneg n) as Wn.
+  destruct (pad_labels_spec 8 (255 - wire_length n) []) as (k & -> & H1 & H2); [cbn; lia|].
+  specialize (H2 N0). cbn [app].
+  set (nd := 255 - wire_length n - 64 * Z.of_nat k) in *.
+  eexists. apply mk_name_valid. apply Valid_pads_app; [|exact V|].
+  - apply Forall_rev. destruct (nd >=? 2) eqn:E.
+    + apply Forall_app. split.
+      * apply Forall_forall. intros l Hl. apply repeat_spec in Hl. subst l. split; [discriminate|cbn; lia].
+      * constructor; [|constructor]. split; [apply repeat_ne; lia|rewrite zlen_repeat; lia].
+    + apply Forall_forall. intros l Hl. apply repeat_spec in Hl. subst l. split; [discriminate|cbn; lia].
+  - rewrite wire_length_rev. destruct (nd >=? 2) eqn:E.
+    + rewrite wire_length_app, wire_length_repeat63, wire_length_cons, zlen_repeat.
+      change (wire_length []) with 0. unfold nd in *. lia.
+    + rewrite wire_length_repeat63. unfold nd in *. lia.
+Qed.
+
+Theorem absolute_predecessor_total n o p :
+  Valid n -> Valid o -> is_absolute o = true -> is_subdomain n o = true ->
+  exists s, absolute_predecessor n o p = Ok s.
+Proof.
+  intros Vn Vo Ao S. unfold absolute_predecessor.
+  destruct (name_eqb n o) eqn:E; [apply pad_to_max_name_total; exact Vn|].
+  destruct (sub_not_eq_split _ _ S E) as (lsl & p0 & s0 & -> & Cs).
+  assert (o <> []) as Ho by (apply absolute_ne; exact Ao).
+  assert (s0 <> []) as Hs by (eapply ci_equal_ne; eauto).
+  assert (p0 ++ s0 <> []) as Hps by (destruct p0; [exact Hs|discriminate]).
+  destruct (p0 ++ s0) as [|y suf] eqn:Eps; [congruence|].
+  assert (lsl <> []) as Hl by (eapply Valid_head_nonempty; eauto).
+  assert (Valid (y :: suf)) as Vsuf by (eapply Valid_tl; eauto).
+  destruct (zlist_eqb lsl [0]) eqn:Z0.
+  - unfold parent.
+    assert (name_eqb (lsl :: y :: suf) root = false) as ->.
+    { destruct (name_eqb (lsl :: y :: suf) root) eqn:X; [|reflexivity].
+      apply name_eqb_iff_ci, ci_equal_length in X. discriminate. }
+    assert (name_eqb (lsl :: y :: suf) empty = false) as ->.
+    { destruct (name_eqb (lsl :: y :: suf) empty) eqn:X; [|reflexivity].
+      apply name_eqb_iff_ci, ci_equal_length in X. discriminate. }
+    cbn [orb tl]. exists (y :: suf). apply mk_name_valid, Vsuf.
+  - destruct (rev lsl) as [|least rinit] eqn:R.
+    { exfalso. apply Hl. rewrite <- (rev_involutive lsl), R. reflexivity. }
+    assert (lsl = rev rinit ++ [least]) as El by (rewrite <- (rev_involutive lsl), R; reflexivity).
+    set (nf := if least =? 0 then rev rinit
+               else pad_to_max_label (rev ((if least =? 91 then 64 else least - 1) :: rinit)) (y :: suf)).
+    assert (Valid (nf :: y :: suf)) as Vnf.
+    { subst nf. destruct (least =? 0) eqn:L0.
+      - apply (Valid_replace_head lsl); [exact Vn| |].
+        + intros Hn. apply Z.eqb_eq in L0. subst least. rewrite Hn in El. cbn in El. subst lsl. discriminate.
+        + rewrite El, zlen_app. pose proof (zlen_nonneg [least]). lia.
+      - unfold pad_to_max_label. cbn [rev].
+        set (lab := rev rinit ++ [if least =? 91 then 64 else least - 1]).
+        assert (zlen lab = zlen lsl) as Llab by (unfold lab; rewrite El, !zlen_app; reflexivity).
+        assert (lab <> []) as Hlab by (unfold lab; destruct (rev rinit); discriminate).
+        destruct Vn as (V1 & V2 & V3). inversion V1 as [|? ? Hl63 V1']; subst.
+        rewrite wire_length_cons in V2. rewrite removelast_cons2 in V3. inversion V3 as [|? ? _ V3']; subst.
+        destruct (255 - wire_length (y :: suf) - zlen lab - 1 <=? 0) eqn:Rm.
+        + repeat split.
+          * constructor; [lia|exact V1'].
+          * rewrite wire_length_cons. lia.
+          * rewrite removelast_cons2. constructor; [exact Hlab|exact V3'].
+        + set (k := Z.min (63 - zlen lab) (255 - wire_length (y :: suf) - zlen lab - 1)).
+          assert (0 <= k) as Hk by (unfold k; lia).
+          repeat split.
+          * constructor; [|exact V1']. rewrite zlen_app, zlen_repeat. unfold k. lia.
+          * rewrite wire_length_cons, zlen_app, zlen_repeat. unfold k. lia.
+          * rewrite removelast_cons2. constructor; [|exact V3']. destruct lab; [congruence|discriminate]. }
+    fold nf. rewrite (mk_name_valid _ Vnf). cbn [bind].
+    destruct p; [apply pad_to_max_name_total; exact Vnf|eauto].
+Qed.
